@@ -262,7 +262,7 @@ _CUE_NUM = re.compile(r"-?\d+(?:\.\d+)?")
 def _cue_text(text, spell):
     for t, real in STR_TOKENS.items():
         text = text.replace(json.dumps(t), json.dumps(real))
-    for t, real in NUM_TOKENS.items():
+    for t, real in sorted(NUM_TOKENS.items()):          # negative tokens first: "-7770003" is one token, not minus 7770003
         text = re.sub(r"(?<![\w.])%s(?![\w.])" % re.escape(str(t)), str(real), text)
     # a nullable field with a default: the flat disjunction `T | null | *d` (cog rejects the parenthesised `(T | null) | *d` with
     # "unexpected node with kind '(null|T)'" - same CUE value, the flat one is the spelling it reads)
@@ -325,6 +325,9 @@ def ref_validate(ctx, batch, items):
 def make_render_hook(batch):
     def hook(sid, fmt, pkg, text):
         spell = batch.cat[sid].get("spell", "plain")
+        if fmt != "cue" and '"default": %d' % 7770004 in text:
+            # JSON Schema / OpenAPI integers are signed 64-bit for cog (no unsigned type to declare): 2^64-1 is outside the field's type
+            raise sc.NotExpressible("%s: no unsigned 64-bit integer type" % fmt)
         return _cue_text(text, spell) if fmt == "cue" else _json_text(text, spell)
     return hook
 
@@ -362,9 +365,14 @@ def run_batch(ctx, select, want_cases=False, want_defaults=False, formats=sc.FOR
         sc.build(ctx, b)
     except core.Inconclusive as e:
         # Python is judged on its own: Go that does not compile (C02) only removes the Go side (replay of a single unit)
-        if "no generated package compiles" not in str(e):
-            raise
-        b.timing["build_s"] = 0.0
+        # ... and so does a generated runtime / driver that does not build under a change: the Go side is lost, recorded, not fatal
+        for u in b.units.values():
+            if u["status"] in ("generated", "ok", "retry"):
+                u["status"] = "not_executable"
+                u.setdefault("diagnostics", []).append("go side unusable: %s" % e)
+        b.go_unusable = str(e)
+        b.driver = None
+        b.timing.setdefault("build_s", 0.0)
     import_python(ctx, b)
     core.log("batch: %d schemas, %d units: go %s, python %s; gen %.1fs build %.1fs" % (
         len(b.ids), len(b.units), dict(collections.Counter(u["status"] for u in b.units.values())),
@@ -419,7 +427,7 @@ def import_python(ctx, batch):
             u["py_err"] = r.get("err", "")
             batch.stats["py_not_executable"] += 1
     if not any(u["py"] == "ok" for u in batch.units.values()):
-        raise core.Inconclusive("no generated python module imports: %s" % [u.get("py_err") for u in batch.units.values()][:3])
+        batch.python_unusable = "no generated python module imports: %s" % [u.get("py_err") for u in batch.units.values()][:3]
 
 
 # ----------------------------------------------------------------------------------------------
@@ -649,7 +657,7 @@ def value_type(S, f):
     if k == "ienum":
         return "int-enum-big-member" if abs(d) >= 7770000 else "int-enum-member"
     if k == "arr":
-        return "list-empty" if d == [] else "list-" + _SCALAR_NAME.get(sc.resolve(S, r["t"])["k"], "other")
+        return "list-empty" if d == [] else "list-" + _SCALAR_NAME.get(sc.resolve(S, r["t"])["k"], "list" if sc.resolve(S, r["t"])["k"] == "arr" else "other")
     if k == "struct":
         return "struct-override" if d else "struct-empty-override"
     if k == "union":
@@ -796,3 +804,63 @@ def unit_problems(batch):
         if u.get("py") == "not_executable":
             out["%s/python/not_executable: %s" % (u["fmt"], u.get("py_err", "")[:140])] += 1
     return dict(out)
+
+
+# ----------------------------------------------------------------------------------------------
+# the check's own escape hatches (notes/MUTATION_CLASSES.md 14, 15)
+# ----------------------------------------------------------------------------------------------
+def settle(ctx, soft):
+    """A vacuity gate, a failed self-test or a disagreement between TLC and the python join makes the run inconclusive ONLY when no
+    violation outside the known findings was observed: observed violations are reported (exit 1), the reasons become notes."""
+    if not soft:
+        return
+    known = {k.get("signature") for k in core.load_known() if k["property"] == ctx.pid and k.get("status", "known") == "known"}
+    if any(f["signature"] not in known for f in ctx.failures):
+        for m in soft:
+            ctx.notes.append("not enforced because violations were observed: " + m)
+        return
+    raise core.Inconclusive("; ".join(soft))
+
+
+def run_driver_safe(ctx, batch, commands, name):
+    """sc.run_driver; when the driver PROCESS dies (fatal error in generated code: stack overflow, out of memory - not a recoverable
+    panic) the commands are re-run one package at a time and the death is attributed to the package that causes it."""
+    try:
+        return sc.run_driver(ctx, batch, commands, name)
+    except core.Inconclusive as e:
+        first = str(e)
+    groups = collections.defaultdict(list)
+    for c in commands:
+        groups[c["type"].split(".")[0]].append(c)
+    res = {}
+    for pkg, cs in sorted(groups.items()):
+        try:
+            res.update(sc.run_driver(ctx, batch, cs, "%s-%s" % (name, pkg)))
+        except core.Inconclusive as e:
+            for c in cs:
+                res[c["id"]] = {"id": c["id"], "op": c["op"], "panic": "the driver process died while running this package (%s)" % e, "crash": True,
+                                "std_err": "driver process died", "strict_err": None, "has_strict": False}
+    if not any(r.get("crash") for r in res.values()):
+        raise core.Inconclusive(first)
+    return res
+
+
+def run_pydriver_safe(ctx, batch, commands, name):
+    try:
+        return run_pydriver(ctx, batch, commands, name)
+    except core.Inconclusive as e:
+        first = str(e)
+    groups = collections.defaultdict(list)
+    for c in commands:
+        groups[c["module"]].append(c)
+    res = {}
+    for mod, cs in sorted(groups.items()):
+        try:
+            res.update(run_pydriver(ctx, batch, cs, "%s-%s" % (name, mod)))
+        except core.Inconclusive as e:
+            for c in cs:
+                res[c["id"]] = {"id": c["id"], "op": c["op"], "ok": False, "stage": "crash", "crash": True,
+                                "err": "FatalError: the python process died while running this module (%s)" % e}
+    if not any(r.get("crash") for r in res.values()):
+        raise core.Inconclusive(first)
+    return res
